@@ -317,7 +317,7 @@ func permCase(file string) (mode os.FileMode, content, attrs string, ok bool) {
 	return 0, "", "", false
 }
 
-func runProtoCase(self, work string, m *common.Model, c protoCase, inject string) (impl, model string, rules []string, raw string, err error) {
+func runProtoCase(self, work string, m *lfModel, c protoCase, inject string) (impl, model string, rules []string, raw string, err error) {
 	if mode, content, attrs, ok := permCase(c.File); ok {
 		return runPermCase(self, work, m, c, mode, content, attrs)
 	}
@@ -354,7 +354,7 @@ func runProtoCase(self, work string, m *common.Model, c protoCase, inject string
 
 // runPermCase: the call is made by an unprivileged uid on a file it may only read (or only
 // write); compared with the model's attribute semantics (opsattr).
-func runPermCase(self, work string, m *common.Model, c protoCase, mode os.FileMode, content, attrs string) (impl, model string, rules []string, raw string, err error) {
+func runPermCase(self, work string, m *lfModel, c protoCase, mode os.FileMode, content, attrs string) (impl, model string, rules []string, raw string, err error) {
 	if os.Geteuid() != 0 {
 		return "", "", nil, "", fmt.Errorf("not root: cannot switch to an unprivileged uid (skipped)")
 	}
